@@ -12,6 +12,9 @@ functions that are executed symbolically from MIR and whose inputs are user text
            (all a, b < 2^256): no panic, no 2^k-sized computation (C16's harness, panic / unbounded-work only).
  values  : publishing constants through Substitution for versioned and unversioned variables (C06-X
            harness, panic only) and the operator table (panic only).
+ desugar : every (statement slot x expression shape) of C18 with a tuple or without: the tuple remover and, when it
+           returns a statement, the real CFG / IR lifter on that statement (C18's harness, panic only): the catch-all
+           `panic!("failed to convert AST ... to IR")` arms are unreachable.
  cfg     : lifting every statement skeleton with <= 3 statements and building its dominator tree: the
            internal assertions are unreachable (C12's harness, panic only).
 Everything else the property covers (the LALR automaton, desugaring, IR lifting catch-alls, stack depth,
@@ -69,6 +72,8 @@ def tasks(tier):
     ts += [{'part': 'delegate', 'spec': 'C05', 'task': t} for t in _c05_small()]
     ts += [{'part': 'delegate', 'spec': 'C06', 'task': {'kind': 'rule', 'node': n}} for n in ('subst', 'subst_signal', 'subst_update', 'phi', 'switch')]
     ts += [{'part': 'delegate', 'spec': 'C12', 'task': t} for t in _c12_small()]
+    from . import C18
+    ts += [{'part': 'delegate', 'spec': 'C18', 'task': t} for t in C18.tasks(tier) if 'part' not in t]
     return ts
 
 
@@ -174,8 +179,8 @@ def main(tier, replay=None):
         rep.inconclusive.append('%d counterexamples did not reproduce with the real binary, e.g. %s' % (len(rep.nonrepro), json.dumps(rep.nonrepro[0], default=str)[:300]))
     pr = prog()
     rep.bounds = {'lex': 'token texts of every length 0..%d matching the token regular expression read from lang.lalrpop' % MAXLEN, 'strip': 'all strings of <= 5 Unicode chars',
-                  'algebra': 'all operands a, b < 2^256 for the three primes', 'values': 'the Substitution / Phi / SwitchOp rules', 'cfg': 'all skeletons with <= 3 statements'}
+                  'algebra': 'all operands a, b < 2^256 for the three primes', 'values': 'the Substitution / Phi / SwitchOp rules', 'cfg': 'all skeletons with <= 3 statements', 'desugar': '18 statement slots x 16 expression shapes, with and without a tuple'}
     rep.assumptions = ['only panic / overflow / bounds / unbounded-work obligations of the delegated harnesses are reported here; their semantic obligations are reported under their own property',
                        'source hash ' + pr.hashes['parser'] + '/' + pr.hashes['structure']]
-    rep.outside = ['the LALR automaton and every other grammar action', 'desugaring (syntax_sugar_remover) and IR lifting catch-all arms', 'stack depth, memory consumption, wall-clock time', 'include handling and the file system']
+    rep.outside = ['the LALR automaton and every other grammar action', 'anonymous-component expansion; IR lifting of statements outside the C18 shapes', 'stack depth, memory consumption, wall-clock time', 'include handling and the file system']
     return rep.finish()
